@@ -195,6 +195,9 @@ pub trait MArch {
     fn set_slot(a: &mut Self::Arch, at: usize, index: u32, version: u32);
     fn set_cell(a: &mut Self::Arch, at: usize, slot: u32, version: u32, val: u8, aux: u32);
     fn get_raw(a: &Self::Arch) -> (u32, usize, usize, u32);
+    /// Pre-allocates the event logs (hook; a reallocating Vec::push is a symbolic-size memcpy for CBMC).
+    #[cfg(feature = "events")]
+    fn reserve_events(a: &mut Self::Arch, additional: usize);
     fn get_slot(a: &Self::Arch, at: usize) -> (u32, u32);
     /// `(val, aux, columns consistent)` of dense cell `at`, read through the public slice API.
     fn get_vals(a: &mut Self::Arch, at: usize) -> (u8, u32, bool);
@@ -346,6 +349,10 @@ macro_rules! model_arch {
             }
             fn get_raw(a: &$arch) -> (u32, usize, usize, u32) {
                 a.data.__verif_get_raw()
+            }
+            #[cfg(feature = "events")]
+            fn reserve_events(a: &mut $arch, additional: usize) {
+                a.data.__verif_reserve_events(additional)
             }
             fn get_slot(a: &$arch, at: usize) -> (u32, u32) {
                 a.data.__verif_get_slot(at)
